@@ -16,8 +16,10 @@ func runC20(p *Prog, r *Report) {
 	le := newLitEval(p)
 	tabExplain(r)
 	r.Explain = append(r.Explain, "R-BITS: di.Direction masks are distinct single bits; each setter changes, and each getter reads, only the bits of its own attribute (derived from the SSA of the methods, not from their text).")
-	ruleRangeTablesWF(p, r, le, []string{"unicodedata", "harfbuzz", "language", "segmenter", "shaping", "fontscan", "font"})
+	rtables, _ := ruleRangeTablesWF(p, r, le, []string{"unicodedata", "harfbuzz", "language", "segmenter", "shaping", "fontscan", "font"})
 	r.Floor("R-TAB/wf", len(r.Instances["R-TAB/wf"]), 160)
+	r.Explain = append(r.Explain, "R-TAB/blocks: in the general-category tables of unicodedata no two-point entry {Lo, Hi, Stride: Hi-Lo} has all the code points between its ends in that same category (per the unicode package of the Go release running the check): the large blocks that UnicodeData.txt gives as a First/Last pair of lines keep their interior.")
+	ruleCategoryBlocks(p, r, rtables, "unicodedata", 25)
 	ruleFamilyDisjoint(p, r, le, "unicodedata", "lineBreaks", "", 43)
 	ruleFamilyDisjoint(p, r, le, "unicodedata", "graphemeBreaks", "graphemeBreakAll", 13)
 	ruleFamilyDisjoint(p, r, le, "unicodedata", "wordBreaks", "wordBreakAll", 14)
